@@ -5,6 +5,7 @@ import (
 	"fmt"
 	"math"
 	"strconv"
+	"strings"
 
 	common "go.opentelemetry.io/proto/otlp/common/v1"
 	resource "go.opentelemetry.io/proto/otlp/resource/v1"
@@ -22,14 +23,20 @@ import (
 //   * trace ids are 16 bytes and span ids 8 bytes (wrong lengths are C05's subject: they
 //     panic in ColFixedStr.Append), parent ids are 8 bytes or absent;
 //   * strings are valid UTF-8 (proto3 string fields; proto.Unmarshal rejects anything else);
-//   * attribute keys are unique within one attribute list (OTLP specification: "attribute
-//     keys MUST be unique"); the same key may occur on the span and on its resource;
+//   * the same attribute key may occur on the span, on its scope and on its resource, with
+//     equal or different values (legal OTLP: e.g. resource deployment.environment=prod, span
+//     deployment.environment=canary; qryn merges the resource's attributes into the span).
+//     In a small measured fraction a key also occurs twice within one list: the OTLP
+//     specification says keys MUST be unique there, but the wire format and qryn's decoder
+//     accept it, so the two sides must still agree on the one value they keep;
 //   * end >= start and start < 2^63 (the row column is Int64).
 
 // AnyVal is an OTLP AnyValue. K: s(tring) b(ool) i(nt) d(ouble) y(bytes) a(rray) m(ap/kvlist) e(mpty).
 type AnyVal struct {
 	K string   `json:"k"`
 	S string   `json:"s,omitempty"`
+	// Pad appends that many 'x' to S (large string values without large case files).
+	Pad int `json:"pad,omitempty"`
 	B bool     `json:"b,omitempty"`
 	I int64    `json:"i,omitempty"`
 	D string   `json:"d,omitempty"` // strconv float text: NaN and Inf are not JSON numbers
@@ -57,7 +64,9 @@ type OTLPSpan struct {
 }
 
 type OTLPScope struct {
-	Name  string     `json:"name"`
+	Name string `json:"name"`
+	// Attrs are the instrumentation scope's own attributes (qryn ignores them).
+	Attrs []KeyVal   `json:"attrs,omitempty"`
 	Spans []OTLPSpan `json:"spans"`
 }
 
@@ -78,10 +87,18 @@ var attrKeyPool = []string{
 	"", ".", "x y", "k\"q", "日本", "arr", "arr.0", "map", "map.k", "nested",
 }
 
+// Str is the string value (S plus padding).
+func (v AnyVal) Str() string {
+	if v.Pad > 0 {
+		return v.S + strings.Repeat("x", v.Pad)
+	}
+	return v.S
+}
+
 func (v AnyVal) Proto() *common.AnyValue {
 	switch v.K {
 	case "s":
-		return &common.AnyValue{Value: &common.AnyValue_StringValue{StringValue: v.S}}
+		return &common.AnyValue{Value: &common.AnyValue_StringValue{StringValue: v.Str()}}
 	case "b":
 		return &common.AnyValue{Value: &common.AnyValue_BoolValue{BoolValue: v.B}}
 	case "i":
@@ -141,7 +158,7 @@ func (b OTLPBatch) Proto() *trace.TracesData {
 	for _, r := range b.Resources {
 		rs := &trace.ResourceSpans{Resource: &resource.Resource{Attributes: KVProto(r.Attrs)}}
 		for _, sc := range r.Scopes {
-			ss := &trace.ScopeSpans{Scope: &common.InstrumentationScope{Name: sc.Name}}
+			ss := &trace.ScopeSpans{Scope: &common.InstrumentationScope{Name: sc.Name, Attributes: KVProto(sc.Attrs)}}
 			for _, sp := range sc.Spans {
 				ss.Spans = append(ss.Spans, sp.Proto())
 			}
@@ -283,10 +300,84 @@ func genTimes(rt *rapid.T) (uint64, uint64) {
 	return start, start + dur
 }
 
+// collisionKeys are drawn for attributes that sit on a resource and again on its spans
+// (and scopes); they include the service-name family.
+var collisionKeys = []string{"deployment.environment", "host.name", "service.name", "peer.service", "faas.name",
+	"k8s.deployment.name", "process.executable.name", "a", "http.method"}
+
+var collisionVals = []string{"prod", "canary", "svc-a", "svc-b", "eu-1", "front end"}
+
+func genCollisionVal(rt *rapid.T, label string, not *AnyVal) AnyVal {
+	for try := 0; ; try++ {
+		var v AnyVal
+		if rapid.IntRange(0, 9).Draw(rt, label+"-kind") == 7 {
+			v = AnyVal{K: "i", I: rapid.Int64Range(0, 9).Draw(rt, label+"-i")}
+		} else {
+			v = AnyVal{K: "s", S: rapid.SampledFrom(collisionVals).Draw(rt, label)}
+		}
+		if not == nil || try > 4 || v.K != not.K || v.S != not.S || v.I != not.I {
+			return v
+		}
+	}
+}
+
+func setAttr(kvs []KeyVal, k string, v AnyVal) []KeyVal {
+	for i := range kvs {
+		if kvs[i].Key == k {
+			kvs[i].Val = v
+			return kvs
+		}
+	}
+	return append(kvs, KeyVal{Key: k, Val: v})
+}
+
+func getAttr(kvs []KeyVal, k string) *AnyVal {
+	for i := range kvs {
+		if kvs[i].Key == k {
+			return &kvs[i].Val
+		}
+	}
+	return nil
+}
+
+// maybeDuplicate repeats, in about one list out of ten, a key within the list itself, with a
+// different (mostly) or equal scalar value, in front of or behind the rest.
+func maybeDuplicate(rt *rapid.T, kvs []KeyVal, label string) []KeyVal {
+	if rapid.IntRange(0, 9).Draw(rt, label+"-dup") != 4 {
+		return kvs
+	}
+	k := "dup.key"
+	var other *AnyVal
+	if len(kvs) > 0 && rapid.Bool().Draw(rt, label+"-dup-existing") {
+		e := kvs[rapid.IntRange(0, len(kvs)-1).Draw(rt, label+"-dup-pick")]
+		k, other = e.Key, &e.Val
+	} else {
+		v := genCollisionVal(rt, label+"-dup-first", nil)
+		kvs = append(kvs, KeyVal{Key: k, Val: v})
+		other = &v
+	}
+	var v AnyVal
+	if rapid.IntRange(0, 3).Draw(rt, label+"-dup-equal") == 2 && !other.Nested() {
+		v = *other
+	} else {
+		v = genCollisionVal(rt, label+"-dup-val", other)
+	}
+	if rapid.Bool().Draw(rt, label+"-dup-front") {
+		return append([]KeyVal{{Key: k, Val: v}}, kvs...)
+	}
+	return append(kvs, KeyVal{Key: k, Val: v})
+}
+
 // GenOTLPBatch draws a batch: 1-3 resources, 1-2 scopes each, 0-4 spans per scope; spans
-// share trace ids and point at each other as parents.
+// share trace ids and point at each other as parents. About 60 % of the resources share 1-3
+// keys (collisionKeys) with their spans/scopes, with different values in ~70 % of the
+// occurrences; about one attribute list in ten repeats a key; about one batch in fifty is
+// larger than 1 MiB.
 func GenOTLPBatch(rt *rapid.T) OTLPBatch {
 	var b OTLPBatch
+	// now and then every span carries a large string attribute, so that the batch passes the
+	// parser's 1 MiB flush mark and comes back in two or more portions
+	big := rapid.IntRange(0, 24).Draw(rt, "big-batch") == 13
 	nres := rapid.IntRange(1, 3).Draw(rt, "nres")
 	traces := []string{genID(rt, 16, "trace")}
 	var spanIDs []string
@@ -306,9 +397,25 @@ func GenOTLPBatch(rt *rapid.T) OTLPBatch {
 			}
 			res.Attrs = uniq
 		}
+		// keys this resource shares with (some of) its scopes and spans
+		var shared []string
+		if rapid.IntRange(0, 9).Draw(rt, "res-shared") < 6 {
+			n := rapid.IntRange(1, 3).Draw(rt, "res-nshared")
+			for i := 0; i < n; i++ {
+				k := rapid.SampledFrom(collisionKeys).Draw(rt, "shared-key")
+				res.Attrs = setAttr(res.Attrs, k, genCollisionVal(rt, "res-shared-val", nil))
+				shared = append(shared, k)
+			}
+		}
+		res.Attrs = maybeDuplicate(rt, res.Attrs, "res")
 		nsc := rapid.IntRange(1, 2).Draw(rt, "nscope")
 		for s := 0; s < nsc; s++ {
 			sc := OTLPScope{Name: rapid.SampledFrom([]string{"", "lib", "io.otel"}).Draw(rt, "scope")}
+			for _, k := range shared {
+				if rapid.IntRange(0, 9).Draw(rt, "scope-shared") < 3 {
+					sc.Attrs = setAttr(sc.Attrs, k, genCollisionVal(rt, "scope-shared-val", getAttr(res.Attrs, k)))
+				}
+			}
 			nsp := rapid.IntRange(0, 4).Draw(rt, "nspans")
 			for i := 0; i < nsp; i++ {
 				sp := OTLPSpan{}
@@ -331,6 +438,20 @@ func GenOTLPBatch(rt *rapid.T) OTLPBatch {
 				sp.Kind = int32(rapid.IntRange(0, 5).Draw(rt, "span-kind"))
 				sp.Start, sp.End = genTimes(rt)
 				sp.Attrs = genAttrs(rt, rapid.IntRange(0, 5).Draw(rt, "nattr"), 2, true)
+				for _, k := range shared {
+					if rapid.IntRange(0, 9).Draw(rt, "span-shared") < 6 {
+						rv := getAttr(res.Attrs, k)
+						if rapid.IntRange(0, 9).Draw(rt, "span-shared-equal") < 3 && rv != nil {
+							sp.Attrs = setAttr(sp.Attrs, k, *rv)
+						} else {
+							sp.Attrs = setAttr(sp.Attrs, k, genCollisionVal(rt, "span-shared-val", rv))
+						}
+					}
+				}
+				sp.Attrs = maybeDuplicate(rt, sp.Attrs, "span")
+				if big {
+					sp.Attrs = append(sp.Attrs, KeyVal{Key: "blob", Val: AnyVal{K: "s", S: "b", Pad: rapid.IntRange(150_000, 400_000).Draw(rt, "blob-pad")}})
+				}
 				sp.Events = rapid.IntRange(0, 2).Draw(rt, "events")
 				sp.Status = int32(rapid.IntRange(0, 2).Draw(rt, "status"))
 				sc.Spans = append(sc.Spans, sp)
